@@ -3,11 +3,13 @@ package main
 import (
 	"encoding/json"
 	"fmt"
+	"hash/fnv"
 	"os"
 	"path/filepath"
 	"sort"
 	"strings"
 
+	"github.com/juev/hledger-lsp/internal/analyzer"
 	"github.com/juev/hledger-lsp/internal/include"
 	"github.com/juev/hledger-lsp/internal/workspace"
 )
@@ -107,12 +109,24 @@ func c12Snap(idx *workspace.WorkspaceIndex) string {
 			cs = append(cs, fmt.Sprintf("(%s, %d)", gBytes(k), counts[k]))
 		}
 	}
+	return fmt.Sprintf("(mkSnap %s %s %s)", gList(cs), gBytesList(derived), c12Templates(s.PayeeTemplates))
+}
+
+// the template table as (payee, fingerprint of the posting list) pairs in payee order
+func c12Templates(m map[string][]analyzer.PostingTemplate) string {
 	var tk []string
-	for k := range s.PayeeTemplates {
+	for k := range m {
 		tk = append(tk, k)
 	}
 	sort.Strings(tk)
-	return fmt.Sprintf("(mkSnap %s %s %s)", gList(cs), gBytesList(derived), gBytesList(tk))
+	var out []string
+	for _, k := range tk {
+		b, _ := json.Marshal(m[k])
+		h := fnv.New64a()
+		h.Write(b)
+		out = append(out, fmt.Sprintf("(%s, %d)", gBytes(k), h.Sum64()))
+	}
+	return gList(out)
 }
 
 func c12FI(fi *workspace.FileIndex) string {
@@ -138,12 +152,7 @@ func c12FI(fi *workspace.FileIndex) string {
 	for _, k := range keys {
 		cs = append(cs, fmt.Sprintf("(%s, %d)", gBytes(k), counts[k]))
 	}
-	var tk []string
-	for k := range fi.PayeeTemplates {
-		tk = append(tk, k)
-	}
-	sort.Strings(tk)
-	return fmt.Sprintf("(mkFI %s %s)", gList(cs), gBytesList(tk))
+	return fmt.Sprintf("(mkFI %s %s)", gList(cs), c12Templates(fi.PayeeTemplates))
 }
 
 // view of a workspace, component by component, as canonical JSON strings
@@ -169,14 +178,8 @@ func c12View(w *workspace.Workspace) []string {
 		byPrefix, all = s.Accounts.ByPrefix, s.Accounts.All
 	}
 	counters := j([]interface{}{all, byPrefix, s.Payees, s.Commodities, s.Tags, s.TagValues, s.Dates, s.AccountCounts, s.PayeeCounts, s.CommodityCounts, s.TagCounts, s.TagValueCounts})
-	// a fresh Initialize ranges over a map when it fills the template table (which file's
-	// template wins for a shared payee is unspecified), so templates are compared by key set
-	var tmplKeys []string
-	for k := range s.PayeeTemplates {
-		tmplKeys = append(tmplKeys, k)
-	}
-	sort.Strings(tmplKeys)
-	return []string{j(members), counters, j(txKeys), j(tmplKeys), j([]interface{}{w.GetDeclaredAccounts(), w.GetDeclaredCommodities()}), j(w.GetCommodityFormats())}
+	// the whole template table (encoding/json writes map keys in sorted order)
+	return []string{j(members), counters, j(txKeys), j(s.PayeeTemplates), j([]interface{}{w.GetDeclaredAccounts(), w.GetDeclaredCommodities()}), j(w.GetCommodityFormats())}
 }
 
 func c12Run(c c12Case) (string, error) {
